@@ -43,11 +43,11 @@ def smooth(signal, owidth, edge_truncate=False):
         if i < istart:
             if edge_truncate:
                 s[i] = (signal[0:istart+i+1].sum() +
-                        (istart-i)*signal[0])/float(width)
+                        (istart-i)*signal[0].item())/float(width)
         elif i > iend:
             if edge_truncate:
                 s[i] = (signal[i-istart:n].sum() +
-                        (i-iend)*signal[n-1])/float(width)
+                        (i-iend)*signal[n-1].item())/float(width)
         else:
             s[i] = signal[i-w2:i+w2+1].sum()/float(width)
     return s
